@@ -181,12 +181,12 @@ func (fr *Frame) stmt(st *State, s ast.Stmt) flow {
 // chanSend records a send on the ghost channel log. blocking==true marks a bare send.
 func (fr *Frame) chanSend(st *State, n ast.Node, ch, v Val, blocking bool) {
 	x := fr.x
-	x.u.regHeap("chan.nsent", "(Array Int Int)")
+	nk := x.nsentKey(v.S)
 	if blocking && fr.contract != nil && fr.nonblocking() {
 		fr.x.u.oblige("nonblocking:send:"+trunc(fr.src(n), 40), "nonblocking", "send may block", fr.pos(n.Pos()), st.pc, "false")
 	}
-	old := x.getHeap(st, "chan.nsent")
-	x.heapStore(st, "chan.nsent", ch.T, "(+ (select "+old+" "+ch.T+") 1)")
+	old := x.getHeap(st, nk)
+	x.heapStore(st, nk, ch.T, "(+ (select "+old+" "+ch.T+") 1)")
 	key := "chan.last." + sortId(v.S)
 	x.u.regHeap(key, "(Array Int "+v.S+")")
 	x.heapStore(st, key, ch.T, v.T)
